@@ -66,12 +66,12 @@ pub fn swarm(seed: u64, class: Class, max_steps: usize) -> Swarm {
     let mut r = Rng::sub(seed, "swarm");
     let mut w: [u32; NKINDS] = match class {
         //            cach unc hand wmeta wenv renv cyc sbom execd file mkdir sym impl spec top rest
-        Class::C01 => [30, 8, 2, 10, 8, 3, 1, 8, 6, 10, 2, 0, 2, 0, 0, 12],
+        Class::C01 => [30, 8, 2, 10, 8, 3, 1, 8, 6, 10, 2, 0, 2, 0, 2, 12],
         Class::C02 => [4, 1, 40, 5, 3, 2, 1, 3, 2, 6, 2, 0, 3, 0, 0, 14],
         Class::C03 => [2, 1, 8, 0, 40, 25, 5, 0, 0, 2, 0, 0, 0, 14, 0, 4],
         Class::C10 => [5, 1, 8, 0, 10, 25, 15, 0, 0, 3, 2, 0, 35, 0, 0, 3],
         Class::C11 => [12, 10, 10, 1, 2, 0, 0, 2, 2, 10, 20, 25, 2, 0, 6, 5],
-        Class::Mixed => [12, 5, 12, 6, 8, 6, 3, 6, 6, 8, 4, 3, 5, 0, 0, 8],
+        Class::Mixed => [12, 5, 12, 6, 8, 6, 3, 6, 6, 8, 4, 3, 5, 0, 3, 8],
     };
     // swarm: switch off a random subset of the non-request kinds
     for (k, wk) in w.iter_mut().enumerate() {
@@ -753,10 +753,20 @@ pub fn gen_history(seed: u64, class: Class, max_steps: usize) -> (History, Swarm
                 }
                 K_TOPLINK => {
                     // immediately followed by a deleting request on that layer
-                    batch.push(Op::TopSymlink {
-                        layer,
-                        abs: g.r.bool(),
-                    });
+                    if g.r.bool() {
+                        batch.push(Op::TopSymlink {
+                            layer,
+                            abs: g.r.bool(),
+                        });
+                    } else {
+                        for _ in 0..1 + g.r.usize(2) {
+                            batch.push(Op::SbomLink {
+                                layer,
+                                format: g.r.usize(3),
+                                kind: g.r.below(4) as u8,
+                            });
+                        }
+                    }
                     batch.push(g.request(layer, true));
                 }
                 _ => batch.push(Op::Restore {
